@@ -1,6 +1,8 @@
 import MakoModel.Basic.Wire
 import MakoModel.Codegen.Attrs
 import MakoModel.Codegen.Deco
+import MakoModel.Codegen.AttrsDefaults
+import MakoModel.PyExpr.Drv
 /-!
 Driver handler of op `c05` (attribute parsing / signature re-emission model).
 
@@ -13,6 +15,8 @@ Driver handler of op `c05` (attribute parsing / signature re-emission model).
   (a list is `<n> <item>*`, an emitted list `err` for IndexError)
 * `psig <asCall> <n> <argname>* <n> <kwargname>* <n> <default>* <n> <kwdefault|none>* <varargs> <kwargs>` →
   `err | <n> <item>*`
+* `dsig <pos|kwonly|vararg> <expression in the wire syntax of PyExpr/Drv.lean>` → `decl | ascall` of the signature
+  `a, x=<e>` / `a, *, x=<e>` / `a, *r, x=<e>, **kw` whose default is the expression tree (`ASig.decl`)
 -/
 namespace MakoModel.Codegen.AttrsDrv
 open MakoModel.Wire MakoModel.Codegen.Attrs
@@ -142,6 +146,17 @@ def handle : Handler
       pure (encOL (getArgExprs
         { argnames := an, kwargnames := kn, defaults := ds, kwdefaults := kds, varargs := va, kwargs := kw } asCall))
     | _ => none
+  | "dsig" :: shape :: ts => do
+    let e ← MakoModel.PyExpr.Drv.full MakoModel.PyExpr.Drv.pExpr ts
+    let a : AParam := ⟨['a'], none⟩
+    let x : AParam := ⟨['x'], some e⟩
+    let s : Option ASig := match shape with
+      | "pos" => some ⟨[a, x], none, false, [], none⟩
+      | "kwonly" => some ⟨[a], none, true, [x], none⟩
+      | "vararg" => some ⟨[a], some ['r'], false, [x], some ['k', 'w']⟩
+      | _ => none
+    let s ← s
+    pure (encOL (s.decl false) ++ " | " ++ encOL (s.decl true))
   | _ => none
 
 end MakoModel.Codegen.AttrsDrv
